@@ -549,9 +549,21 @@ func (fx *Fx) callByContract(st *State, key string, spec *FuncSpec, fd *FuncDecl
 		callee = fd.pkg
 	}
 	// preconditions
+	assumedWhy, assumePre := "", false
+	if fx.rootSpec != nil {
+		for suffix, why := range fx.rootSpec.AssumePre {
+			if strings.HasSuffix(key, suffix) {
+				assumePre, assumedWhy = true, why
+			}
+		}
+	}
 	for _, r := range spec.Requires {
 		g := fx.specEval(st, callee, bind, nil, r.Expr)
-		fx.oblige(st, "pre", fmt.Sprintf("%s@%d:%s", key, ord, r.Label), g, r.Text)
+		if assumePre {
+			fx.assumed[fmt.Sprintf("precondition %s of %s is assumed at its call in %s: %s", r.Label, key, fx.key, assumedWhy)] = true
+		} else {
+			fx.oblige(st, "pre", fmt.Sprintf("%s@%d:%s", key, ord, r.Label), g, r.Text)
+		}
 		st.assume(g)
 	}
 	pre := st.clone()
@@ -562,6 +574,10 @@ func (fx *Fx) callByContract(st *State, key string, spec *FuncSpec, fd *FuncDecl
 	// havoc the modifies set
 	for _, m := range spec.Modifies {
 		fx.havocSpecLocOld(st, callee, bind, m, pre)
+	}
+	// function values handed to the callee may be called by it: whatever they can write is unknown afterwards
+	for _, a := range args {
+		fx.havocFuncArg(st, a)
 	}
 	// results
 	var sig *types.Signature
@@ -591,7 +607,49 @@ func (fx *Fx) callByContract(st *State, key string, spec *FuncSpec, fd *FuncDecl
 	if spec.Trusted {
 		fx.assumed["assumed contract of "+key] = true
 	}
+	if spec.Traced {
+		// ghost: the call itself becomes the newest entry of the trace (after whatever the callee recorded)
+		name := key[strings.LastIndex(key, ".")+1:]
+		recvX := "nil"
+		if recv != nil {
+			recvX = recv.X
+		}
+		for j, a := range args {
+			col := fmt.Sprintf("arg_%s_%d", name, j)
+			fx.v.colSorts[col] = a.S
+			fx.v.colTypes[col] = a.T
+		}
+		saved := st.iterK
+		fx.abstractCallQuiet(st, recvX, name, args)
+		st.iterK = saved
+	}
 	return results
+}
+
+// havocFuncArg: the callee may call this function value any number of times.
+func (fx *Fx) havocFuncArg(st *State, a Val) {
+	if a.Fn == nil {
+		return
+	}
+	if a.Fn.Lit != nil {
+		ws := fx.collectWrites([]ast.Node{a.Fn.Lit.Body}, st)
+		fx.havoc(st, ws)
+		return
+	}
+	if a.Fn.Key != "" && a.Fn.Recv != nil {
+		spec := fx.v.contracts.Funcs[a.Fn.Key]
+		fd := fx.v.decls[a.Fn.Key]
+		if spec == nil || fd == nil {
+			panic(unsupported("method value " + a.Fn.Key + " passed as an argument needs a contract"))
+		}
+		bind := fx.specBindings(fd, spec, a.Fn.Recv, nil)
+		for _, m := range spec.Modifies {
+			fx.havocSpecLoc(st, fd.pkg, bind, m)
+		}
+		if fx.v.mayTouchTrace(a.Fn.Key) {
+			fx.havocTrace(st)
+		}
+	}
 }
 
 // siteOrdinal numbers the call sites of one callee in source order within the enclosing declaration,
@@ -772,6 +830,11 @@ func (fx *Fx) methID(name string) string {
 var untraced = map[string]bool{"Logger": true, "Error": true, "Context": true, "Err": true, "Done": true}
 
 func (fx *Fx) abstractCall(st *State, recv string, meth string, args []Val, sig *types.Signature, call ast.Node) []Val {
+	if sig != nil && (meth == "Done" || meth == "Err") {
+		if vs, ok := fx.ctxMethod(st, recv, meth, sig); ok {
+			return vs
+		}
+	}
 	if untraced[meth] {
 		var results []Val
 		if sig != nil {
@@ -788,6 +851,16 @@ func (fx *Fx) abstractCall(st *State, recv string, meth string, args []Val, sig 
 	if st.iterK != "" {
 		st.trCols["iter"] = app("store", fx.trCol(st, "iter", SInt), n, st.iterK)
 		st.trCols["callat"] = app("store", fx.trCol(st, "callat", SInt), st.iterK, n)
+	}
+	if st.rangeKey != "" {
+		col := "rkey_" + sanitize(st.rangeKeySort)
+		fx.v.colSorts[col] = st.rangeKeySort
+		st.trCols[col] = app("store", fx.trCol(st, col, st.rangeKeySort), n, st.rangeKey)
+		st.trCols["rloop"] = app("store", fx.trCol(st, "rloop", SInt), n, fmt.Sprint(st.rangeOrd))
+		gname := fmt.Sprintf("callatkey%d", st.rangeOrd)
+		if g, ok := st.ghost[gname]; ok {
+			st.ghost[gname] = Val{S: g.S, X: app("store", g.X, st.rangeKey, n)}
+		}
 	}
 	for j, a := range args {
 		col := fmt.Sprintf("arg_%s_%d", meth, j)
@@ -831,6 +904,20 @@ func (fx *Fx) abstractCall(st *State, recv string, meth string, args []Val, sig 
 		fx.assumed["assumed contract of abstract callee "+meth] = true
 	}
 	return results
+}
+
+// abstractCallQuiet appends a ghost entry without results (used for traced contract calls).
+func (fx *Fx) abstractCallQuiet(st *State, recv string, meth string, args []Val) {
+	n := fx.trCount(st)
+	st.trCols["recv"] = app("store", fx.trCol(st, "recv", SRef), n, recv)
+	st.trCols["meth"] = app("store", fx.trCol(st, "meth", SInt), n, fmt.Sprint(fx.v.methNum(meth)))
+	for j, a := range args {
+		col := fmt.Sprintf("arg_%s_%d", meth, j)
+		st.trCols[col] = app("store", fx.trCol(st, col, a.S), n, a.X)
+	}
+	nn := fx.d.freshConst("T_n", SInt)
+	st.assume(app("=", nn, app("+", n, "1")))
+	st.trN = nn
 }
 
 // ---------- contract-language builtins ----------
@@ -934,6 +1021,50 @@ func (fx *Fx) specBuiltin(st *State, call *ast.CallExpr) ([]Val, bool) {
 			q = fmt.Sprintf("(exists ((%s Int)) %s)", qs, and(rng, body))
 		}
 		return boolV(q), true
+	case "all", "some":
+		// all(x, "int"|"string"|"ref", body): unbounded quantifier over a sort
+		v := call.Args[0].(*ast.Ident).Name
+		sortName := *fx.eval(st, call.Args[1], true).Lit
+		sort, ok := map[string]string{"int": SInt, "string": SStr, "ref": SRef, "bool": SBool}[sortName]
+		if !ok {
+			panic(unsupported("all(): sort " + sortName))
+		}
+		var t types.Type
+		switch sortName {
+		case "int":
+			t = types.Typ[types.Int]
+		case "string":
+			t = types.Typ[types.String]
+		}
+		qs := sym(fx.d.freshName("q_" + v))
+		saved, had := st.bound[v]
+		st.bound[v] = Val{T: t, S: sort, X: qs}
+		n := len(st.pc)
+		fx.inQuant++
+		body := fx.boolTerm(st, call.Args[2], true)
+		fx.inQuant--
+		if len(st.pc) != n {
+			st.pc = st.pc[:n]
+			panic(unsupported("quantifier body introduces definitions: " + exprText(call)))
+		}
+		if had {
+			st.bound[v] = saved
+		} else {
+			delete(st.bound, v)
+		}
+		pat := firstPattern(body, qs)
+		patS := ""
+		if pat != "" {
+			patS = " :pattern (" + pat + ")"
+		}
+		kw := "forall"
+		if id.Name == "some" {
+			kw = "exists"
+		}
+		if patS != "" && kw == "forall" {
+			return boolV(fmt.Sprintf("(%s ((%s %s)) (! %s%s))", kw, qs, sort, body, patS)), true
+		}
+		return boolV(fmt.Sprintf("(%s ((%s %s)) %s)", kw, qs, sort, body)), true
 	case "len":
 		v := fx.eval(st, call.Args[0], true)
 		if v.T != nil {
@@ -1030,6 +1161,22 @@ func (fx *Fx) specBuiltin(st *State, call *ast.CallExpr) ([]Val, bool) {
 			panic(unsupported("hastype " + name))
 		}
 		return boolV(and(not(app("=", a.X, "nil")), app("=", app("dyntype", a.X), fmt.Sprint(fx.v.typeID(t))))), true
+	case "scdone", "scerr", "sctok", "scstarted":
+		a := fx.eval(st, call.Args[0], true)
+		c := fx.scannerCell(st, a.X)
+		switch id.Name {
+		case "scdone":
+			return boolV(app("sc_done", c)), true
+		case "scstarted":
+			return boolV(app("sc_started", c)), true
+		case "scerr":
+			return []Val{{T: types.Universe.Lookup("error").Type(), S: SRef, X: app("sc_err", c)}}, true
+		}
+		return []Val{{T: types.Typ[types.String], S: SStr, X: app("sc_tok", c)}}, true
+	case "scannercell":
+		a := fx.eval(st, call.Args[0], true)
+		_ = a
+		panic(unsupported("scannercell is only valid in modifies clauses"))
 	case "implements":
 		a := fx.eval(st, call.Args[0], true)
 		name := *fx.eval(st, call.Args[1], true).Lit
@@ -1043,11 +1190,16 @@ func (fx *Fx) specBuiltin(st *State, call *ast.CallExpr) ([]Val, bool) {
 		// hasdyn(x, "TypeName"): the dynamic type of interface value x is the package's named type
 		a := fx.eval(st, call.Args[0], true)
 		name := *fx.eval(st, call.Args[1], true).Lit
-		o := fx.pkg.types.Scope().Lookup(name)
+		ptr := strings.HasPrefix(name, "*")
+		o := fx.pkg.types.Scope().Lookup(strings.TrimPrefix(name, "*"))
 		if o == nil {
 			panic(unsupported("hasdyn: no type " + name))
 		}
-		return boolV(and(not(app("=", a.X, "nil")), app("=", app("dyntype", a.X), fmt.Sprint(fx.v.typeID(o.Type()))))), true
+		dt := o.Type()
+		if ptr {
+			dt = types.NewPointer(dt)
+		}
+		return boolV(and(not(app("=", a.X, "nil")), app("=", app("dyntype", a.X), fmt.Sprint(fx.v.typeID(dt))))), true
 	case "asstr":
 		a := fx.eval(st, call.Args[0], true)
 		f := fx.d.declareFun("unbox_"+sanitize(SStr), []string{SRef}, SStr)
@@ -1077,12 +1229,42 @@ func (fx *Fx) specBuiltin(st *State, call *ast.CallExpr) ([]Val, bool) {
 	case "crecv":
 		k := fx.eval(st, call.Args[0], true)
 		return []Val{{S: SRef, X: app("select", fx.trCol(st, "recv", SRef), k.X)}}, true
+	case "dohasid", "doid", "doidlen", "dobody":
+		k := fx.eval(st, call.Args[0], true)
+		switch id.Name {
+		case "dohasid":
+			return boolV(app("select", fx.trCol(st, "do_hasid", SBool), k.X)), true
+		case "doidlen":
+			return intV(app("select", fx.trCol(st, "do_idlen", SInt), k.X)), true
+		case "dobody":
+			return []Val{{S: SRef, X: app("select", fx.trCol(st, "do_body", SRef), k.X)}}, true
+		}
+		return []Val{{T: types.Typ[types.String], S: SStr, X: app("select", fx.trCol(st, "do_id", SStr), k.X)}}, true
 	case "written":
 		// written(a, b): bytes accepted by the Write calls with trace index in [a, b)
 		a := fx.eval(st, call.Args[0], true)
 		b := fx.eval(st, call.Args[1], true)
 		acc := fx.trCol(st, "acc", SInt)
 		return intV(app("-", app("select", acc, b.X), app("select", acc, a.X))), true
+	case "ckeyint", "ckeystr", "ckeyref":
+		k := fx.eval(st, call.Args[0], true)
+		sort := map[string]string{"ckeyint": SInt, "ckeystr": SStr, "ckeyref": SRef}[id.Name]
+		col := "rkey_" + sanitize(sort)
+		fx.v.colSorts[col] = sort
+		return []Val{{S: sort, X: app("select", fx.trCol(st, col, sort), k.X)}}, true
+	case "cloop":
+		k := fx.eval(st, call.Args[0], true)
+		return intV(app("select", fx.trCol(st, "rloop", SInt), k.X)), true
+	case "callatkey":
+		ord := fx.eval(st, call.Args[0], true).X
+		k := fx.eval(st, call.Args[1], true)
+		g, ok := st.ghost["callatkey"+ord]
+		if !ok {
+			// the loop was not reached on this path: an arbitrary mapping
+			gs := fmt.Sprintf("(Array %s Int)", k.S)
+			g = Val{S: gs, X: fx.d.declareConst("callatkey"+ord+"@unreached", gs)}
+		}
+		return intV(app("select", g.X, k.X)), true
 	case "callat":
 		k := fx.eval(st, call.Args[0], true)
 		return intV(app("select", fx.trCol(st, "callat", SInt), k.X)), true
